@@ -797,7 +797,103 @@ def run_grandchild_arg(ctx, i, rng):
               lambda: dict(case=desc))
 
 
+def run_multi_method(ctx, i, rng):
+  """nn.scan / nn.vmap over a Module CLASS with `methods=` given as a dict of per-method settings that DIFFER (reverse, in_axes /
+  out_axes, unroll): every method runs with its own settings, whichever is called and in whatever order - the result of each
+  is the explicit loop over the un-lifted method with the per-step parameters. (Round h: every earlier stream lifted one method.)"""
+  import jax
+  import jax.numpy as jnp
+  import flax.linen as nn
+  kind = ['scan', 'vmap'][i % 2]
+  order = [('a', 'b'), ('b', 'a'), ('a',), ('b',), ('a', 'b', 'a')][(i // 2) % 5]
+  swap_decl = (i // 10) % 2 == 1      # declaration order of the dict
+  as_list = (i // 20) % 3 == 2        # the list form: the same settings for both (control)
+  L = 3
+  desc = dict(kind=kind, order=list(order), swap_decl=swap_decl, methods_as_list=as_list)
+  with ctx.case('multi_method', i, desc, nontrivial=not as_list):
+    class Cell(nn.Module):
+      def setup(self):
+        self.dense = nn.Dense(L)
+
+      def a(self, c, x):
+        c = jnp.tanh(self.dense(c) + x)
+        return c, c * 2.0
+
+      def b(self, c, x):
+        c = jnp.tanh(self.dense(c) - 2.0 * x)
+        return c, c + 1.0
+
+      def ra(self, x):
+        return jnp.tanh(self.dense(x))
+
+      def rb(self, x):
+        return self.dense(x) * 3.0
+
+    if kind == 'scan':
+      common = dict(variable_axes={'params': 0}, split_rngs={'params': True}, length=L)
+      sa = dict(common, in_axes=0, out_axes=0, reverse=False)
+      sb = dict(common, in_axes=1, out_axes=1, reverse=True)
+      items = [('a', sa), ('b', sb)]
+      if as_list:
+        sb = sa
+        Lifted = nn.scan(Cell, methods=['b', 'a'] if swap_decl else ['a', 'b'], **sa)
+      else:
+        Lifted = nn.scan(Cell, methods=dict(reversed(items) if swap_decl else items))
+    else:
+      common = dict(variable_axes={'params': 0}, split_rngs={'params': True}, axis_size=L)
+      sa = dict(common, in_axes=0, out_axes=0)
+      sb = dict(common, in_axes=1, out_axes=1)
+      items = [('ra', sa), ('rb', sb)]
+      if as_list:
+        sb = sa
+        Lifted = nn.vmap(Cell, methods=['rb', 'ra'] if swap_decl else ['ra', 'rb'], **sa)
+      else:
+        Lifted = nn.vmap(Cell, methods=dict(reversed(items) if swap_decl else items))
+
+    class Net(nn.Module):
+      def setup(self):
+        self.cell = Lifted()
+
+      def __call__(self, c, xs, which):
+        outs = []
+        for w in which:
+          if kind == 'scan':
+            outs.append(getattr(self.cell, w)(c, xs))
+          else:
+            outs.append(getattr(self.cell, 'r' + w)(xs))
+        return outs
+
+    nr = np.random.default_rng(1000 + i)
+    c0 = jnp.asarray(nr.uniform(-1, 1, (2, L)).astype(np.float32))
+    # square in the two candidate axes, so that a wrong axis / direction is a silent wrong result, not a shape error
+    xs = jnp.asarray(nr.uniform(-1, 1, (L, L, L) if kind == 'scan' else (L, L, L)).astype(np.float32))
+    if kind == 'scan':
+      c0 = jnp.asarray(nr.uniform(-1, 1, (L, L)).astype(np.float32))
+    V = Net().init(jax.random.key(i), c0, xs, ('a',))
+    V = tmap(lambda a: a + jnp.asarray(nr.uniform(-0.3, 0.3, a.shape).astype(np.float32)), V)
+    outs = Net().apply(V, c0, xs, order)
+    ctx.op('nn.%s(Class, methods={..differing settings..})' % kind)
+    P = V['params']['cell']
+    for w, got in zip(order, outs):
+      st = sa if w == 'a' else sb
+      if kind == 'scan':
+        c, ys = c0, [None] * L
+        steps = range(L - 1, -1, -1) if st['reverse'] else range(L)
+        for t in steps:
+          c, y = Cell().apply({'params': take(P, 0, t)}, c, jnp.take(xs, t, axis=st['in_axes']), method=w)
+          ys[t] = y
+        want = (c, jnp.stack(ys, axis=st['out_axes']))
+      else:
+        ys = [Cell().apply({'params': take(P, 0, t)}, jnp.take(xs, t, axis=st['in_axes']), method='r' + w) for t in range(L)]
+        want = jnp.stack(ys, axis=st['out_axes'])
+      ctx.event('multi_method_compared')
+      ctx.check(close(got, want), 'multi_method:%s:method_ran_with_other_methods_settings' % kind,
+                lambda: dict(case=desc, method=w))
+
+
 def run(ctx):
+  for i in ctx.indices(60, 'multi_method'):
+    run_multi_method(ctx, i, ctx.rng('multi_method', i))
   for i in ctx.indices(16, 'grandchild_arg'):
     run_grandchild_arg(ctx, i, ctx.rng('grandchild_arg', i))
   for i in ctx.indices(48 if ctx.tier == 'quick' else 96, 'attr_body'):
